@@ -16,6 +16,13 @@ written from a defect that was demonstrated on the pinned tree and repaired:
       the branches pushes one entry per branch onto branch_equijoins or leaves the function - an iteration that skips the
       push lets a branch without a key drop out of the comparison, and the hash join then loses the rows only that
       branch accepts;
+ (R5) scope of the statement's WHERE clause: execute_join hands that clause to its inputs for predicate pushdown; the right
+      input of a SEMI / ANTI join (a rewritten IN / EXISTS subquery) is outside its scope, so the clause reaches the
+      right input only through a value that is None for these join types (decided by the discriminant of join_type);
+ (R6) the join condition `x = c` of the IN rewrite is evaluated over the columns of both tables: both operands of the
+      equality go through a qualification step (an alternative ColumnRef { table: Some(..) } built from the outer table
+      for x and from the subquery's table for c) - an unqualified name on both sides would compare a column with
+      itself when the tables share a column name;
  (R3) NOT EXISTS is not decorrelated to NOT IN: in the subquery rewriter the call of rewrite_exists_to_in is reachable
       only on the `negated == false` side (NOT IN and NOT EXISTS differ under NULLs).
 Does NOT decide join-order independence, the hash / nested-loop agreement on values, nor the semi-join rewrites of
@@ -167,3 +174,65 @@ def run(ctx):
             ctx.finding('R4/analyze_or_equi_join', 'analyze_or_equi_join can finish an iteration over an OR branch without recording it: a branch without an equi-join '
                         'no longer prevents the hash join on the key of the other branches, and the rows that only that branch accepts are lost', ao.loc)
     ctx.floor('C05.R4 loops over the OR branches', checked, 1)
+
+    # ------------------------------------------------------------------ R5 WHERE clause scope under SEMI / ANTI joins
+    ctx.rule('C05.R5', 'execute_join: the WHERE-clause argument of the execute_from_clause call for the RIGHT input is not the raw where_clause parameter but a value '
+             'that is None on the paths selected by join_type in {Semi, Anti}')
+    ej = ctx.fn(EX + 'select::scan::join_scan::execute_join')
+    sj = Sym(ej)
+    calls = [(i, t) for i, t in ej.calls() if (callee_name(t) or '').endswith('select::scan::execute_from_clause') and sj.op(t['args'][0]) == 'right']
+    ctx.floor('C05.R5 execute_from_clause calls for the right input', len(calls), 1)
+    for i, t in calls:
+        w = sj.op(t['args'][3])
+        raw = w == 'where_clause'
+        guarded = False
+        if not raw and 'None()' in w:
+            for bi, b in enumerate(ej.blocks):
+                for st in b['s']:
+                    if 'd' in st and st['v']['r'] == 'agg' and str(st['v'].get('adt', '')).endswith('option::Option') and st['v'].get('variant') == 'None':
+                        for c, v in shared.deciding_conditions(ej, bi, sj):
+                            if 'join_type' in c:
+                                guarded = True
+                        # the test may go through a bool computed by matches!(join_type, ..): follow the switch operand to its definitions
+                        from ..engine.cfg import defs_of, op_local
+                        dj = defs_of(ej)
+                        for sb in shared.deciding_switches(ej, bi):
+                            l = op_local(ej.blocks[sb]['t']['on'])
+                            seen = set()
+                            work = [l]
+                            while work:
+                                x = work.pop()
+                                if x is None or x in seen:
+                                    continue
+                                seen.add(x)
+                                for dd in dj.get(x, []):
+                                    if dd[1] == 'assign':
+                                        if any('join_type' in c for c, _v in shared.deciding_conditions(ej, dd[0], sj)):
+                                            guarded = True
+                                        a = dd[2].get('a')
+                                        if isinstance(a, dict):
+                                            work.append(op_local(a))
+        ctx.instance('R5/execute_join', {'rule': 'C05.R5', 'where_argument_for_the_right_input': w[:80], 'none_for_semi_anti': guarded})
+        if raw or not guarded:
+            ctx.finding('R5/execute_join', 'execute_join pushes the statement\'s WHERE clause into the right input of every join, also of the SEMI / ANTI joins that replace '
+                        'IN / EXISTS subqueries: a predicate on an unqualified column that both tables have is applied to the subquery\'s table '
+                        '(WHERE x IN (SELECT y FROM b) AND v > 1 filters b.v)', f'{ej.file}:{t["l"]}')
+
+    # ------------------------------------------------------------------ R6 both sides of the IN join condition are qualified
+    ctx.rule('C05.R6', 'try_convert_in_to_join: each operand of the Equal node has an alternative of the form ColumnRef(Some(<table of its side>), ..): the outer one built '
+             'from the outer FROM clause, the inner one from the subquery\'s FROM clause')
+    eqs = []
+    for bi, b in enumerate(g.blocks):
+        for st in b['s']:
+            if 'd' in st and st['v']['r'] == 'agg' and str(st['v'].get('adt', '')).endswith('::Expression') and st['v'].get('variant') == 'BinaryOp':
+                ops_ = [sg.op(o) for o in st['v'].get('ops', [])]
+                if ops_ and ops_[0].startswith('Equal('):
+                    eqs.append(ops_)
+    ctx.require(eqs, 'try_convert_in_to_join: Equal node not found')
+    for ops_ in eqs:
+        outer_ok = 'ColumnRef(Some(' in ops_[1] and 'from@Table' in ops_[1]
+        inner_ok = 'ColumnRef(Some(' in ops_[2] and 'subquery.from' in ops_[2]
+        ctx.instance('R6/try_convert_in_to_join', {'rule': 'C05.R6', 'outer_operand_qualified': outer_ok, 'inner_operand_qualified': inner_ok})
+        if not (outer_ok and inner_ok):
+            ctx.finding('R6/in-join-condition', 'try_convert_in_to_join builds the join condition from unqualified column references: with the same column name on both sides '
+                        '(k IN (SELECT k FROM u)) the condition compares a column with itself and every row qualifies', g.loc)
